@@ -1,5 +1,7 @@
 use std::fmt::Debug;
 use std::hash::Hash;
+use std::sync::atomic::{AtomicBool, Ordering};
+use std::sync::Arc;
 use tracing::debug;
 use tracing::{info, instrument};
 
@@ -29,6 +31,11 @@ where
 
     /// The maximum size for goals.
     max_size: usize,
+
+    /// Set once the `should_continue` callback of the current root goal has
+    /// returned `false`. From then on every goal is answered with an
+    /// approximation, so nothing computed afterwards may enter the cache.
+    interrupted: Arc<AtomicBool>,
 }
 
 pub(super) trait SolverStuff<K, V>: Copy
@@ -79,6 +86,7 @@ where
             search_graph: SearchGraph::new(),
             cache,
             max_size,
+            interrupted: Arc::new(AtomicBool::new(false)),
         }
     }
 
@@ -114,6 +122,15 @@ where
         // letting them leak into this solve.
         self.stack.clear();
         self.search_graph.rollback_to(DepthFirstNumber::MIN);
+        self.interrupted.store(false, Ordering::Relaxed);
+        let interrupted = self.interrupted.clone();
+        let should_continue = move || {
+            let go_on = should_continue();
+            if !go_on {
+                interrupted.store(true, Ordering::Relaxed);
+            }
+            go_on
+        };
         let minimums = &mut Minimums::new();
         self.solve_goal(canonical_goal, minimums, solver_stuff, should_continue)
     }
@@ -183,14 +200,20 @@ where
             // cache now. This is a sort of hack to alleviate the
             // worst of the repeated work that we do during tabling.
             if subgoal_minimums.positive >= dfn {
-                if let Some(cache) = &mut self.cache {
-                    self.search_graph.move_to_cache(dfn, cache);
-                    debug!("solve_reduced_goal: SCC head encountered, moving to cache");
-                } else {
-                    debug!(
-                        "solve_reduced_goal: SCC head encountered, rolling back as caching disabled"
-                    );
-                    self.search_graph.rollback_to(dfn);
+                // Results computed after the caller asked us to stop are
+                // approximations (`Ambig`), not final: they must not be cached.
+                let interrupted = self.interrupted.load(Ordering::Relaxed);
+                match &mut self.cache {
+                    Some(cache) if !interrupted => {
+                        self.search_graph.move_to_cache(dfn, cache);
+                        debug!("solve_reduced_goal: SCC head encountered, moving to cache");
+                    }
+                    _ => {
+                        debug!(
+                            "solve_reduced_goal: SCC head encountered, rolling back as caching disabled or solve interrupted"
+                        );
+                        self.search_graph.rollback_to(dfn);
+                    }
                 }
             }
 
